@@ -519,10 +519,13 @@ func (r *recRunner) state() string {
 // for every scanned block.
 func (r *recRunner) oracle(ctx string) string {
 	v := r.oracle1(ctx)
-	if ctx == "retry-after-failed-batch" {
-		// one stable key prefix for the known consequence of the in-memory/disk desync
-		v = strings.ReplaceAll(v, "."+ctx+":", ":")
-		v = strings.ReplaceAll(v, "C16 key=", "C16 key="+ctx+".")
+	if ctx == "retry-after-failed-batch" && v != "" {
+		// one stable key for every consequence of the in-memory/on-disk desync after a rolled-back batch
+		first := strings.SplitN(v, "; ", 2)[0]
+		if i := strings.Index(first, ": "); i >= 0 {
+			first = first[i+2:]
+		}
+		return "C16 key=retry-after-failed-batch: recovery retried in-process after a failed batch: " + first
 	}
 	return v
 }
